@@ -493,3 +493,8 @@ func vfNativeNote(f func() string) {
 }
 
 func fmtAny(v interface{}) string { return fmt.Sprintf("%T(%v)", v, v) }
+
+// vfConcretize returns s itself; under the symbolic engine it forks over the
+// feasible values of every byte and returns a concrete string (used to compare
+// a symbolic library model against the native function).
+func vfConcretize(s string) string { return s }
